@@ -81,6 +81,24 @@ pub fn run(args: &Args) {
         }));
         t.emit(json!({"event":"Dest","dest":codes(dest),"outcome":o,"msg":msg}));
     }
+    // several destinations in one package, in every hand-over order: files next to sub-directories that sort before and
+    // after them, nested and sibling directories, a name that continues another one
+    let pool = ["/a/b/x", "/a/c", "/b/x", "/c", "/a/b/y", "/a/x", "/a/b/c/d", "/a/bb", "/a/b.x", "/a/b"];
+    let mut sets: Vec<Vec<&str>> = vec![];
+    for i in 0..pool.len() { for j in 0..pool.len() { if i != j {
+        sets.push(vec![pool[i], pool[j]]);
+        for k in 0..pool.len() { if k != i && k != j && (i + 2 * j + 3 * k) % 3 == 0 { sets.push(vec![pool[i], pool[j], pool[k]]); } }
+    } } }
+    for dests in sets {
+        let (o, msg) = outcome(guarded(|| {
+            let mut b = PackageBuilder::new("d", "1", "MIT", "noarch", "dest set").compression(CompressionWithLevel::None);
+            for d in &dests { b = b.with_file(&src, FileOptions::new(*d))?; }
+            b.build()
+        }));
+        let mut fields = vec!["dests".to_string()];
+        fields.extend(dests.iter().map(|d| d.to_string()));
+        t.emit(json!({"event":"Meta","fields":fields,"outcome":o,"msg":msg}));
+    }
     // capability text through the builder path (FileOptions::caps -> with_file -> build)
     let toks = ["cap_chown", "CAP_KILL", "all", "cap_bogus", ",", "=", "+", "-", "e", "i", "p", "x", " "];
     let idx: Vec<u32> = (1..=13).collect();
